@@ -108,6 +108,14 @@ pub fn run(ctx: &mut Ctx) {
         let input = gen_input(t);
         check(&input, st)
     });
+    // scale: very many rejected lines in one section (1 000 .. 131 073) before real content, very long lines, big sliders
+    let cases = ctx.tier.pick(200u64, 2_000u64);
+    ctx.pbt("c07-scale", cases, 400, |t, st| {
+        let (text, family) = if t.chance(50) { (crate::gen::doc::gen_many_lines_doc(t), "very many lines") } else { crate::gen::doc::gen_scale_doc(t) };
+        let enc = crate::refmodel::framing::ENCS[t.below(4)];
+        let input = Input { bytes: crate::refmodel::framing::encode_text(&text, enc), family, sentinel: None };
+        check(&input, st)
+    });
 }
 
 pub fn replay(_ctx: &mut Ctx, ext: &str, bytes: &[u8]) -> Result<Option<String>, Fail> {
